@@ -48,6 +48,11 @@ impl<'a> ExpressionReducer for UndefinedFunctionReducer<'a> {
                 self.visit_expressions(args)?,
                 expression_type,
             )),
+            Expression::Property(left, name, expression_type) => Ok(Expression::Property(
+                Box::new(self.visit_expression(*left)?),
+                name,
+                expression_type,
+            )),
             _ => Ok(expression),
         }
     }
